@@ -152,6 +152,9 @@ func (fr *Frame) preludeCall(st *State, name string, fn *ssa.Function, args []Va
 		// bound variables range over inhabitants of their Go type
 		var facts []*Term
 		for i, p := range clo.Fn.Params {
+			if b, ok := p.Type().Underlying().(*types.Basic); ok && (b.Kind() == types.Int || b.Kind() == types.Int64) {
+				continue // spec-level index variables are mathematical integers
+			}
 			facts = append(facts, ex.typeFacts(ps[i].T, p.Type()))
 		}
 		if strings.HasPrefix(name, "__forall") {
@@ -207,6 +210,13 @@ func (fr *Frame) preludeCall(st *State, name string, fn *ssa.Function, args []Va
 		return Val{T: Select(ex.get(st, comp, ArraySort(SInt, ex.ctx.SortOf(rt))), args[1].T)}, true
 	case "__fresh":
 		return Val{T: TTrue}, true
+	case "__sameArray":
+		return Val{T: And(Eq(SArr(args[0].T), SArr(args[1].T)), Eq(SOff(args[0].T), SOff(args[1].T)))}, true
+	case "__nilSlice":
+		return Val{T: Eq(SArr(args[0].T), TNull)}, true
+	case "__disjoint":
+		// the two slices do not share a backing array (or one of them has none)
+		return Val{T: Or(Eq(SArr(args[0].T), TNull), Eq(SArr(args[1].T), TNull), Neq(SArr(args[0].T), SArr(args[1].T)))}, true
 	}
 	return Val{}, false
 }
